@@ -82,10 +82,18 @@ def rel(a, b):
 def run_mjx(ctx, jobs, timeout):
     drv = os.path.join(F.VERIF, "harness", "drivers", "c43_mjx.py")
     env = dict(os.environ, JAX_PLATFORMS="cpu")
-    try:
-        r = subprocess.run([PY, drv, ctx.repo], input=json.dumps({"jobs": jobs}), capture_output=True, text=True, timeout=timeout, env=env)
-    except subprocess.TimeoutExpired:
-        return None, "timeout after %ds" % timeout
+    for attempt in range(3):
+        try:
+            r = subprocess.run([PY, drv, ctx.repo], input=json.dumps({"jobs": jobs}), capture_output=True, text=True, timeout=timeout, env=env)
+        except subprocess.TimeoutExpired:
+            return None, "timeout after %ds" % timeout
+        # XLA/LLVM aborts (rc -6) when the machine is momentarily out of memory for its JIT sections: an environment
+        # condition, not an answer of the code under test - wait and run the same jobs again
+        if r.returncode != 0 and "Cannot allocate memory" in r.stderr and attempt < 2:
+            ctx.cov["support"]["mjx_driver_retries_after_ENOMEM"] = ctx.cov["support"].get("mjx_driver_retries_after_ENOMEM", 0) + 1
+            time.sleep(30 * (attempt + 1))
+            continue
+        break
     if r.returncode != 0:
         return None, "rc=%d %s" % (r.returncode, r.stderr[-1500:])
     try:
